@@ -102,7 +102,7 @@ func (ex *Exec) callStd(full string, fobj *types.Func, args []Value, e *ast.Call
 			ex.oblige("safety", "BigEndian.Put@"+ex.where(e), BoolC(false), "short slice")
 			panic(pathEnd{"short slice"})
 		}
-		if !ex.mode.BV && !v.IsConst() {
+		if !ex.mode.BV && !v.IsConst() && n > 2 {
 			// byte decomposition: fresh bytes b_i in [0,256) with sum b_i*256^(n-1-i) == v mod 2^(8n) (unique)
 			var parts []*Term
 			for i := 0; i < n; i++ {
